@@ -31,6 +31,8 @@ func C05(c *Ctx) {
 	c05Reaper(c)
 	c05Search(c)
 	c05Sweep(c)
+	r.Rule("C05.K8.refuseClean", "a store write that is refused (non-nil error return of MemoryAllocationStore.SaveAllocation) has filed nothing in the store's indexes on that path", 1)
+	c05RefuseClean(c)
 }
 
 func bigCallOnField(call ssa.CallInstruction, method, field string) bool {
